@@ -452,3 +452,16 @@ pub(super) fn check_unreachable(reach: &Option<HashSet<usize>>, header: *mut Obj
         }
     }
 }
+
+/// (number of instructions, hash of the instruction listing) of a compiled program, so that a
+/// monitor can tell whether two compilations (e.g. optimizer on / off) really differ.
+pub fn program_stats(p: &CompiledProgram) -> (usize, u64) {
+    let mut h: u64 = 0xcbf2_9ce4_8422_2325;
+    for i in &p.instructions {
+        for b in format!("{i:?}").bytes() {
+            h ^= b as u64;
+            h = h.wrapping_mul(0x0000_0100_0000_01B3);
+        }
+    }
+    (p.instructions.len(), h)
+}
